@@ -23,6 +23,9 @@ def u8 (x : Int) : Nat := (x % 256).toNat
 /-- `midi::to_data_byte`: clamp to 0..127 -/
 def clamp7 (v : Int) : Nat := if v < 0 then 0 else if v > 127 then 127 else v.toNat
 
+/-- a pitch-bend value outside its 14 bits is written as the nearest end of the range, not wrapped -/
+def clamp14 (v : Int) : Int := if v < 0 then 0 else if v > 16383 then 16383 else v
+
 /-- `0xS0 + e.channel as u8` (u8 addition, wrapping in release builds) -/
 def status (base : Nat) (ch : Int) : Nat := (base + u8 ch) % 256
 
@@ -46,7 +49,7 @@ def body (e : Event) : List Nat :=
         (match e.data with
          | 0xF0 :: rest => rest
          | d => d)
-  | .pitchBend => [status 0xE0 e.ch, (e.v1 % 128).toNat, ((e.v1 / 128) % 128).toNat]
+  | .pitchBend => [status 0xE0 e.ch, (clamp14 e.v1 % 128).toNat, ((clamp14 e.v1 / 128) % 128).toNat]
   | .pitchBendRange =>
       let r : Nat := if 0 ≤ e.v1 ∧ e.v1 ≤ 24 then e.v1.toNat else 0
       [status 0xB0 e.ch, 0x65, 0, 0, status 0xB0 e.ch, 0x64, 0, 0, status 0xB0 e.ch, 0x06, r]
